@@ -151,6 +151,20 @@ def _hist_subsearches():
                         'note': 'the first export of a process starts the file afresh'}, 'kind': 'history'}
     subs.append((('C04', 'C05', 'C06', 'C13', 'C15'), stale))
 
+    def cwd_change():
+        # the working directory changes between two exports: what is written afterwards is what a fresh process started in the new
+        # directory writes (relative export directories and import paths are resolved against the directory of the moment)
+        for first, second in ((['export_all', 'A'], ['export_all', 'C']), (['export', 'C'], ['export_all', 'D']), (['export_all', 'W1'], ['export_all', 'W2'])):
+            a = run_history([first]).get('files', {})
+            b = run_history([['chdir', 'inner'], second]).get('files', {})
+            steps = [first, ['chdir', 'inner'], second]
+            got = run_history(steps)
+            exp = dict(a); exp.update(b)
+            if got.get('files') != exp:
+                return {'request': {'op': 'export_history', 'steps': steps}, 'result': {'files': got.get('files'), 'results': got.get('results'), 'expected_files': exp, 'agree': False,
+                        'note': 'expected_files = the files of the first export alone plus the files a fresh process writes after the same chdir'}, 'kind': 'history'}
+    subs.append((('C06', 'C08', 'C11'), cwd_change))
+
     def deps():
         # types with dependencies: every order of the same calls must leave the same directory (C06), in particular
         # export(T) before export_all(T) must not stop the dependencies from being exported
@@ -233,6 +247,8 @@ def _hist_subsearches():
                        ([['export_all', 'N'], ['export_all', 'A']], ['A', 'N']), ([['export_all', 'N'], ['export_all', 'B'], ['export_all', 'A']], ['A', 'B', 'N']),
                        ([['export_all', 'B'], ['export_all', 'A'], ['export_all', 'N']], ['A', 'B', 'N']),
                        ([['export_all', 'Q'], ['export_all', 'A']], ['A', 'Q']), ([['export_all', 'A'], ['export_all', 'Q']], ['A', 'Q']),
+                       ([['export_all', 'DM'], ['export_all', 'B']], ['B', 'DM']), ([['export_all', 'B'], ['export_all', 'DM']], ['B', 'DM']),
+                       ([['export_all', 'DM'], ['export_all', 'A'], ['export_all', 'B']], ['A', 'B', 'DM']),
                        ([['export_all', 'Z'], ['export_all', 'Q'], ['export_all', 'B']], None)):
             if tys is None:
                 continue
@@ -412,7 +428,7 @@ def search(pid, unit, failure, seed):
 
 # properties each searcher's oracle can speak for (bounded stand-in only)
 SPEAKS_FOR = {'search_templates': ('C04', 'C11', 'C15'), 'search_attrs': ('C09', 'C10', 'C16'), 'search_inflection': ('C04', 'C09', 'C16'), 'search_paths': ('C08', 'C17'), 'search_lexical': ('C04', 'C15'),
-              'search_export_history': ('C04', 'C05', 'C06', 'C11', 'C13', 'C15', 'C17')}
+              'search_export_history': ('C04', 'C05', 'C06', 'C08', 'C11', 'C13', 'C15', 'C17')}
 
 
 def run_named(spec):
